@@ -132,6 +132,7 @@ func (t truncHash) Size() int           { return t.n }
 
 func c08Round(run *ev.Run, o c08One, buf gopacket.SerializeBuffer, rdec *c08Decoders) {
 	run.Eval(1)
+	run.Event("round-trips", 1)
 	cs := ev.MkCase("one", o)
 	r := rng(o.Seed+int64(o.Index)*7919, "c08"+o.Layer)
 	plen := (o.Index + r.Intn(3)*67) % 201
